@@ -205,11 +205,38 @@ def extreme_starts(c):
     return out
 
 
+def stack_failure(c, shifts, upsample=False):
+    """a stack of frames in which the one disk sits on a different pixel in every frame (same pattern, same start position relative to the
+    disk), through the batch entry points: every frame is evaluated on its own merits"""
+    pattern = cl.pattern_from_desc(c['desc'])
+    frames, ps = [], []
+    for (dy, dx) in shifts:
+        cc_ = dict(c, p=(c['p'][0] + dy, c['p'][1] + dx))
+        frames.append(render(cc_))
+        ps.append(cc_['p'])
+    stack = np.array(frames, dtype=np.float32)
+    start = np.array([[c['p'][0] + c['off'][0], c['p'][1] + c['off'][1]]])
+    for name, fn in (('process_frames_full', cc.process_frames_full), ('process_frames_fast', cc.process_frames_fast)):
+        try:
+            cen, ref, hei, ele = fn(pattern, stack, start, upsample=upsample)
+        except Exception as e:  # noqa
+            return '%s raised %s: %s' % (name, type(e).__name__, e)
+        bound = 0.01 if not upsample else 1.5 / (20 if upsample is True else upsample)
+        for k, p in enumerate(ps):
+            err = float(np.abs(ref[k, 0].astype(np.float64) - np.array(p)).max())
+            if cen[k, 0].tolist() != list(p) or not err <= bound:
+                return '%s: frame #%d of a stack (disk on pixel %s, in the other frames on %s; radius %s, frame %s, %s, upsample=%s): centre %s refined %s (%.4f px off, bound %.4f)' % (
+                    name, k, p, [q for q in ps if q != p], c['radius'], c['shape'], c['desc']['kind'], upsample, cen[k, 0].tolist(), ref[k, 0].tolist(), err, bound)
+    return None
+
+
 def replay(body):
     if 'frame_ints' in body.get('args', {}):
         return cl.replay_case(body, 'C01')          # a failing input recorded by the model correspondence (cl.model_check)
     a = body['args']
-    if 'edge' in a:
+    if 'stack_shifts' in a:
+        fail = stack_failure(a['case'], [tuple(x) for x in a['stack_shifts']], a.get('upsample', False))
+    elif 'edge' in a:
         fail = edge_failure(a['case'], a['starts'], a['edge']['crop_function'], a['edge']['nb'], a['edge']['prefill'])
     elif 'starts' in a:
         fail = multi_failure(a['case'], a.get('upsample', False), a['starts'], a['nb'])
@@ -375,6 +402,28 @@ def run(ctx):
                 ctx.violation('input', fail, {'kind': 'input', 'call': 'process_frames_fast/full', 'args': {'case': c2, 'upsample': False}, 'failure': fail}, signature=classify(fail, c2))
                 break
         if ctx.violations:
+            break
+    # (S) stacks of frames with the disk on a different pixel in every frame (the batch helpers re-use their buffers from frame to frame)
+    n = tries = 0
+    while n < ctx.n(30, 300) and tries < 3000:
+        tries += 1
+        c = gen(rng)
+        if c is None or c['desc']['kind'] == 'UserTemplate':
+            continue
+        cs = cl.pattern_from_desc(c['desc']).get_crop_size()
+        cap = max(0, cs - int(math.ceil(c['radius'])) - 1)
+        room = min(cap - abs(c['off'][0]), cap - abs(c['off'][1]), 8)
+        if room < 1:
+            continue
+        # the disk moves by up to `room` pixels around p while the start position stays: it remains inside the search window
+        shifts = [(0, 0)] + [(int(rng.integers(-room, room + 1)), int(rng.integers(-room, room + 1))) for _ in range(int(rng.integers(1, 3)))]
+        n += 1
+        ups = [False, False, 4][n % 3]
+        fail = stack_failure(c, shifts, ups)
+        ctx.count(2 * len(shifts), key=('stack', json.dumps(c['desc'])[:200], c['shape'], c['p'], c['off'], tuple(shifts), ups))
+        if fail:
+            ctx.violation('input', fail, {'kind': 'input', 'call': 'process_frames_fast/full on a stack', 'args': {'case': c, 'stack_shifts': [list(x) for x in shifts], 'upsample': ups}, 'failure': fail},
+                          signature=classify(fail, c))
             break
     # (S) disks close to the frame border (windows overhang the frame), both crop functions, fresh and used crop buffers
     for k in range(ctx.n(60, 600)):
